@@ -282,3 +282,69 @@ Proof.
   - lia.
   - unfold P in *. lia.
 Qed.
+
+(* a position is regular when its checkpoint does not exceed the current growth inside its range
+   (growth inside never decreases, so every reachable position is; it is what makes GetTotalRewards
+   take its ordinary branch) *)
+Definition regular (s : amm) (pid : Z) : Prop :=
+  forall pos ap0 o, find_pos (a_positions s) pid = Some pos -> find_ap (a_acc_pos s) pid = Some ap0 ->
+    fee_growth_outside s (pos_lower pos) (pos_upper pos) = Some o ->
+    0 < ap_shares ap0 /\ forall j, (j < 4)%nat -> vn (ap_value ap0) j + vn o j <= vn (a_acc_value s) j.
+
+(* pro_rata: an allocation of c raises what an in-range position of liquidity l can claim by
+   c*l/L up to one truncation of the growth, one rounding and one truncation of the payout *)
+Theorem allocate_pro_rata s coins s' pid pos ap0 t t' :
+  FeeWF s -> len4 coins -> vnonneg coins -> allocate_incentive s coins = Ok s' ->
+  find_pos (a_positions s) pid = Some pos -> find_ap (a_acc_pos s) pid = Some ap0 ->
+  stored (a_ticks s) (pos_lower pos) -> stored (a_ticks s) (pos_upper pos) -> pos_lower pos < pos_upper pos ->
+  in_range (a_pool s) (pos_lower pos) (pos_upper pos) = true ->
+  regular s pid ->
+  entitlement s pid = Ok t -> entitlement s' pid = Ok t' ->
+  forall j, (j < 4)%nat ->
+    let dq := Z.quot (vn t' j) P - Z.quot (vn t j) P in
+    let L := p_liq (a_pool s) in let l := ap_shares ap0 in let c := vn coins j in
+    (dq - 1) * L * P <= c * l * P + L /\ c * l * P * P <= (dq + 1) * L * P * P + l * L + L * P.
+Proof.
+  intros W Lc Nc H Ep Ea Hlo Hup Hlt Hin Hreg Ht Ht' j Hj.
+  destruct (allocate_growth _ _ _ W Lc H) as (HL & T & Q & Ps & Ap & _ & La' & Hg).
+  destruct (allocate_flow _ _ _ W Lc H) as (W' & _).
+  destruct (entitlement_inv _ _ _ Ht) as (pos1 & ap1 & o & v1 & Ep1 & Ea1 & Eo & Ev & Et).
+  destruct (entitlement_inv _ _ _ Ht') as (pos2 & ap2 & o' & v1' & Ep2 & Ea2 & Eo' & Ev' & Et').
+  rewrite Ep in Ep1. injection Ep1 as <-. rewrite Ea in Ea1. injection Ea1 as <-.
+  rewrite Ps, Ep in Ep2. injection Ep2 as <-. rewrite Ap, Ea in Ea2. injection Ea2 as <-.
+  destruct (Hreg _ _ _ Ep Ea Eo) as [Hsh Hr].
+  assert (Hwf : ap_wf ap0) by (pose proof (fw_aps _ W) as X; rewrite Forall_forall in X; apply X; apply (find_ap_in _ _ _ Ea)).
+  destruct Hwf as (Lval & Lun & Nun & _).
+  set (dl := vminus (a_acc_value s') (a_acc_value s)).
+  assert (Hdl : forall i, (i < 4)%nat -> vn (a_acc_value s') i = vn (a_acc_value s) i + vn dl i).
+  { intros i Hi. unfold dl. rewrite vminus_nth4; [lia|exact La'|apply (fw_acc _ W)|exact Hi]. }
+  destruct (outside_shift s s' _ _ o o' dl T Q (fw_acc _ W) La' (fw_ticks _ W) Hdl Eo Eo') as (Lo & Lo' & No).
+  rewrite (k_out_of_range s _ _ Hlo Hup Hlt), Hin in No.
+  assert (Eoo : o' = o) by (apply vec_ext4; [exact Lo'|exact Lo|]; intros i Hi; rewrite No by exact Hi; lia).
+  subst o'. rewrite Ev in Ev'. injection Ev' as <-.
+  destruct (vadd_nth _ _ _ Ev ltac:(unfold len4 in *; congruence)) as [Lv Nv].
+  assert (Lv4 : len4 v1) by (unfold len4 in *; congruence).
+  assert (Hg0 : forall i, (i < 4)%nat -> 0 <= vn dl i).
+  { intros i Hi. specialize (Hg i Hi). rewrite (Hdl i Hi) in Hg. replace (vn (a_acc_value s) i + vn dl i - vn (a_acc_value s) i) with (vn dl i) in Hg by lia.
+    rewrite vnonneg_nth in Nc. specialize (Nc i ltac:(unfold len4 in *; lia)).
+    eapply dquoT_nonneg; [|exact HL|exact Hg]. unfold dec_of_int, P. lia. }
+  unfold claim_ap in Et, Et'.
+  destruct (total_rewards_cases _ _ _ Et (fw_acc _ W) Lv4 Lun) as [(A & _)|[(_ & (i & Hi & B1 & B2) & _)|(_ & _ & _ & N)]];
+    cbn [ap_shares ap_value ap_unclaimed] in *; [lia| |].
+  { exfalso. specialize (Hr i Hi). rewrite Nv in B2 by (unfold len4 in *; lia). lia. }
+  destruct (total_rewards_cases _ _ _ Et' La' Lv4 Lun) as [(A & _)|[(_ & (i & Hi & B1 & B2) & _)|(_ & _ & _ & N')]];
+    cbn [ap_shares ap_value ap_unclaimed] in *; [lia| |].
+  { exfalso. specialize (Hr i Hi). specialize (Hg0 i Hi). rewrite Nv in B2 by (unfold len4 in *; lia). rewrite (Hdl i Hi) in B2. lia. }
+  destruct (N j Hj) as (r & Hr1 & ->). destruct (N' j Hj) as (r' & Hr1' & ->).
+  specialize (Hg j Hj). rewrite (Hdl j Hj) in Hg, Hr1'.
+  replace (vn (a_acc_value s) j + vn dl j - vn (a_acc_value s) j) with (vn dl j) in Hg by lia.
+  replace (vn (a_acc_value s) j + vn dl j - vn v1 j) with ((vn (a_acc_value s) j - vn v1 j) + vn dl j) in Hr1' by lia.
+  rewrite vnonneg_nth in Nc, Nun.
+  assert (Hc0 : 0 <= vn coins j) by (apply Nc; unfold len4 in *; lia).
+  assert (Hu0 : 0 <= vn (ap_unclaimed ap0) j) by (apply Nun; unfold len4 in *; lia).
+  assert (Hl0 : 0 <= ap_shares ap0) by lia.
+  assert (Hd0 : 0 <= vn (a_acc_value s) j - vn v1 j).
+  { specialize (Hr j Hj). rewrite Nv by (unfold len4 in *; lia). lia. }
+  exact (pro_rata_scalar (vn coins j) (p_liq (a_pool s)) (ap_shares ap0) (vn (a_acc_value s) j - vn v1 j)
+           (vn (ap_unclaimed ap0) j) r r' (vn dl j) Hc0 HL Hl0 Hd0 Hu0 Hg Hr1 Hr1').
+Qed.
